@@ -1095,7 +1095,8 @@ theorem resolve_live (d : Db) (ord : List Nat) (x i : Nat) (h : resolve d ord x 
   obtain ⟨ts, hm, _⟩ := resolve_some d ord x i h
   exact (alHas_iff _ _).mpr (List.mem_map_of_mem hm)
 
-/-- the one-pass lookup (`CheckpointManager::delete`; `find_by_id_or_name` before fff752bd): a
+/-- the one-pass lookup (`find_by_id_or_name` before fff752bd, `CheckpointManager::delete` before
+    14af22de): a
     listed checkpoint whose id or name is `x`, at least as new as every listed one that matches -/
 theorem resolveOld_some (d : Db) (ord : List Nat) (x i : Nat) (h : resolveOld d ord x = some i) :
     ∃ ts, (i, ts) ∈ d.st.cps ∧ ckMatches d x (i, ts) = true ∧
@@ -1320,7 +1321,7 @@ theorem DbInv.step {d : Db} (h : DbInv d) (op : Op) : DbInv (step d op).1 := by
           h.archNodup, h.archTs c hc, h.archTs⟩
     | ckdel x o =>
       simp only [Neumann.Ckpt.step, doCkDel]
-      cases hr : resolveOld d o x with
+      cases hr : resolve d o x with
       | none => exact h
       | some i =>
         refine ⟨h.wf.setCps _, h.arch, h.ids, ?_, h.archCps, alDel_nodup _ _ h.cpsNodup, h.archNodup,
@@ -1355,7 +1356,7 @@ theorem step_arch_prefix (d : Db) (op : Op) : ∃ ext, (step d op).1.arch = d.ar
     | ckdel i o =>
       refine ⟨[], ?_⟩
       simp only [Neumann.Ckpt.step, doCkDel]
-      cases resolveOld d o i <;> simp
+      cases resolve d o i <;> simp
     | setmax n => exact ⟨[], by simp [Neumann.Ckpt.step]⟩
     | _ => simp [Op.isData] at hd
 
